@@ -714,7 +714,15 @@ typedef etrs_st *etrs_t;
 	bn_new((A)->r[1]);														\
 
 #elif ALLOC == AUTO
-#define etrs_new(A)			/* empty */
+#define etrs_new(A)															\
+	bn_new((A)->y);															\
+	ec_new((A)->h);															\
+	ec_new((A)->pk);														\
+	bn_new((A)->c[0]);														\
+	bn_new((A)->c[1]);														\
+	bn_new((A)->r[0]);														\
+	bn_new((A)->r[1]);														\
+
 
 #endif
 
